@@ -62,8 +62,10 @@ def check(run, prog):
                 isinstance(r, ExtV) and r.dotted == "builtins.NotImplemented" and not calls, found=repr(r)[:120], nontrivial=True)
 
     # ------------------------------------------------------------------ R2 unwrap / call / rewrap
-    arr = Num(sp.Symbol("A"), kind="array", shape=(N, 2), tag="data")
+    arr = Num(sp.Symbol("A"), kind="array", shape=(N, 2), tag="data", backend="numpy")
     sc = Num(sp.Symbol("c", real=True))
+    from ..values import Hz as _Hz
+    qy = Num(sp.Symbol("q", real=True) * _Hz, kind="quantity", unit=_Hz)
     z2 = make_signal(prog, "BasebandSignal", nchan=2, name="y")
     zi = make_signal(prog, "IntensitySignal", nchan=2, name="w")
     dz, dz2 = z.attrs["_data"], z2.attrs["_data"]
@@ -72,6 +74,8 @@ def check(run, prog):
         ("np.add(z, c)", uf("add", 2, 1), [z, sc], {}, z),
         ("np.add(c, z)", uf("add", 2, 1), [sc, z], {}, z),
         ("np.multiply(A, z)", uf("multiply", 2, 1), [arr, z], {}, z),
+        ("np.multiply(z, q) with a Quantity q", uf("multiply", 2, 1), [z, qy], {}, z),
+        ("np.multiply(q, z) with a Quantity q", uf("multiply", 2, 1), [qy, z], {}, z),
         ("np.subtract(z, y)", uf("subtract", 2, 1), [z, z2], {}, z),
         ("np.subtract(y, z) dispatched on y", uf("subtract", 2, 1), [z2, z], {}, z2),
         ("np.multiply(z, 2, dtype=..., where=...)", uf("multiply", 2, 1), [z, Num(2)], {"dtype": ExtV("numpy.complex64"), "where": arr, "casting": StrV("unsafe")}, z),
@@ -116,7 +120,8 @@ def check(run, prog):
         for k, (res, g) in enumerate(zip(results, given)):
             if isinstance(g, NoneV):
                 ok = isinstance(res, ObjV) and res.cls is selfv.cls and not meta_same(selfv, res) and isinstance(res.attrs["_data"], Num) \
-                    and str(res.attrs["_data"].expr).startswith(f"Ufunc_{name}_{k}(")
+                    and str(res.attrs["_data"].expr).startswith(f"Ufunc_{name}_{k}(") \
+                    and not [t for t in ev.trace if t[0] == "subclass-stripped"]
                 ck.same("R2", fi.where, label + f": result {k}", "wrapped in the class and metadata of the dispatching signal, holding that ufunc output",
                         ok, found=obj_summary(res) if isinstance(res, ObjV) else repr(res)[:120], nontrivial=True)
             else:
@@ -152,7 +157,11 @@ def _same_val(a, b):
     if a is b:
         return True
     if isinstance(a, Num) and isinstance(b, Num):
-        return a.expr == b.expr
+        # a Python scalar turned into a 0-d array is *not* the same operand: NumPy promotes weak scalars and typed
+        # arrays differently (float32 data * 0.1 stays float32, float32 data * array(0.1) becomes float64)
+        scalar_a = a.kind in ("number",) and not a.shape
+        scalar_b = b.kind in ("number",) and not b.shape
+        return a.expr == b.expr and scalar_a == scalar_b and (a.kind == "quantity") == (b.kind == "quantity")
     if isinstance(a, NoneV) and isinstance(b, NoneV):
         return True
     if isinstance(a, StrV) and isinstance(b, StrV):
